@@ -108,12 +108,50 @@ def run(coro: Any, *, debug_log: bool = False) -> Any:
         return asyncio.run(coro)
 
 
-def make_gateway(version: str | None, *, metric: bool = True, transport: Transport | None = None) -> tuple[Gateway, Any]:
+CTX_MODES = ("same", "copied", "thread")
+
+
+def in_ctx(mode: str | None, func):
+    """Run a set-up step in the caller's context, in a copied contextvars context, or in another thread.
+
+    An application may build its gateway in one task or thread and use it in another: nothing the library
+    keeps in context variables or thread-locals at set-up time may be needed later.
+    """
+    if mode in (None, "same"):
+        return func()
+    if mode == "copied":
+        import contextvars
+
+        return contextvars.copy_context().run(func)
+    import threading
+
+    box: list = []
+
+    def target() -> None:
+        try:
+            box.append((True, func()))
+        except BaseException as err:  # noqa: BLE001
+            box.append((False, err))
+
+    thread = threading.Thread(target=target)
+    thread.start()
+    thread.join()
+    ok, value = box[0]
+    if not ok:
+        raise value
+    return value
+
+
+def make_gateway(version: str | None, *, metric: bool = True, transport: Transport | None = None, ctx: str | None = None) -> tuple[Gateway, Any]:
     transport = transport or RecordingTransport()
-    gateway = Gateway(transport, Config(metric=metric))
-    if version is not None:
-        gateway.protocol_version = version
-    return gateway, transport
+
+    def build() -> Gateway:
+        gateway = Gateway(transport, Config(metric=metric))
+        if version is not None:
+            gateway.protocol_version = version
+        return gateway
+
+    return in_ctx(ctx, build), transport
 
 
 async def rx(gateway: Gateway, line: str) -> tuple[str, Any]:
